@@ -126,7 +126,7 @@ def shard(ctx):
         flush(ctx, items, di)
     # ---------------------------------------------------------------- (B) random programs
     rng = ctx.rng("c01")
-    n = 330 if ctx.quick else 16000
+    n = 330 if ctx.quick else 60000
     o = gen.Opts(types=True, calls=True, rhs_query=False, msgs=False, some_lets=True)
     o.unary_w = 0.4
     for t in range(n):
